@@ -6,13 +6,42 @@ From Kit Require Import Lib.ReaderFacts C16.Model C16.Spec C16.Check.
 (* ===================================================================================== *)
 (* Oracle soundness                                                                        *)
 
-Lemma limit_oracle_sound n s out e ca :
-  limit_oracle n s out e ca = true <-> limit_spec n s out e ca.
+Lemma limit_oracle_sound n s out e cb ca :
+  limit_oracle n s out e cb ca = true <-> limit_spec n s out e cb ca.
 Proof.
   unfold limit_oracle, limit_spec. cbv zeta.
   rewrite andb_true_iff, Nat.eqb_eq.
-  destruct (Z.of_nat (length (data_of s)) >? n)%Z; [|destruct (ends_eof s)];
-    rewrite andb_true_iff, eqb_listN_spec, err_eqb_spec; reflexivity.
+  destruct (Z.of_nat (length (data_of s)) >? n)%Z; [|destruct (ends_eof s)].
+  - rewrite !andb_true_iff, eqb_listN_spec, err_eqb_spec, orb_true_iff, Z.ltb_lt, Nat.eqb_eq.
+    split.
+    + intros (Hca & (Ho & He) & Hcb). repeat split; try assumption.
+      intro Hn. destruct Hcb as [Hcb|Hcb]; [lia | exact Hcb].
+    + intros (Hca & Ho & He & Hcb). repeat split; try assumption.
+      destruct (Z.lt_ge_cases n 0) as [Hn|Hn]; [left; exact Hn | right; exact (Hcb Hn)].
+  - rewrite andb_true_iff, eqb_listN_spec, err_eqb_spec; reflexivity.
+  - rewrite andb_true_iff, eqb_listN_spec, err_eqb_spec; reflexivity.
+Qed.
+
+(* Close called again: every wrapper's Close is idempotent, so [k >= 1] calls are one call. *)
+Lemma iter_idem {A} (f : A -> A) : (forall x, f (f x) = f x) ->
+  forall k x, 1 <= k -> Nat.iter k f x = f x.
+Proof.
+  intros Hf k x Hk. destruct k as [|k]; [lia|]. clear Hk.
+  induction k as [|k IH]; [reflexivity|].
+  change (Nat.iter (S (S k)) f x) with (f (Nat.iter (S k) f x)). rewrite IH. apply Hf.
+Qed.
+
+Lemma limit_close_idem l : limit_close (limit_close l) = limit_close l.
+Proof.
+  unfold limit_close. destruct (lclosed l) eqn:Hc; [rewrite Hc; reflexivity | reflexivity].
+Qed.
+
+Lemma multi_close_idem m : multi_close (multi_close m) = multi_close m.
+Proof. unfold multi_close. cbn [mreaders mgone map]. rewrite app_nil_r. reflexivity. Qed.
+
+Lemma tee_close_idem t : tee_close (tee_close t) = tee_close t.
+Proof.
+  unfold tee_close. destruct (topen t) eqn:Ho; [reflexivity | rewrite Ho; reflexivity].
 Qed.
 
 Lemma eqb_listnat_spec a b : eqb_listnat a b = true <-> a = b.
@@ -79,7 +108,7 @@ Section Limit.
     lN l = (n0 - Z.of_nat (length acc))%Z.
 
   Definition lim_post (out : list N) (e : err) (l : lim) : Prop :=
-    limit_spec n0 s0 out e (closes (lsrc (limit_close l))).
+    limit_spec n0 s0 out e (closes (lsrc l)) (closes (lsrc (limit_close l))).
 
   Lemma limit_read_step want l acc bs e l' :
     0 < want -> lim_inv l acc -> limit_read Fixed want l = (bs, e, l') ->
@@ -119,7 +148,7 @@ Section Limit.
       assert (Hlong : (Z.of_nat (length (data_of s0)) > n0)%Z).
       { rewrite Hd0, app_length. cbn [length]. lia. }
       destruct (Z.gtb_spec (Z.of_nat (length (data_of s0))) n0) as [_|Hno]; [|lia].
-      split; [|reflexivity].
+      split; [|split; [reflexivity | intros _; lia]].
       rewrite Hd0. symmetry. apply firstn_exact. exact Hlen'.
     - (* within the limit *)
       injection Hr as <- <- <-.
@@ -151,10 +180,11 @@ Section Limit.
   Qed.
 End Limit.
 
-Lemma limit_run_spec : forall n s c, consumer_pos c ->
-  exists out e cb ca, limit_run Fixed n s c = (out, Some e, cb, ca) /\ limit_spec n s out e ca.
+Lemma limit_run_spec : forall n s c k, consumer_pos c -> 1 <= k ->
+  exists out e cb ca, limit_run Fixed n s c k = (out, Some e, cb, ca) /\
+                      limit_spec n s out e cb ca.
 Proof.
-  intros n s c Hc. unfold limit_run.
+  intros n s c k Hc Hk. unfold limit_run.
   destruct (Z.ltb_spec n 0) as [Hneg|Hpos].
   - (* negative limit: the first Read fails at once *)
     unfold limit_fuel. cbn [consume].
@@ -164,10 +194,11 @@ Proof.
       destruct (Z.ltb_spec n 0) as [_|Hbad]; [reflexivity | lia]. }
     rewrite Hr. cbn [app].
     exists [], ETooLarge. eexists. eexists. split; [reflexivity|].
+    rewrite (iter_idem limit_close limit_close_idem k _ Hk).
     unfold limit_spec, limit_close, lim_new. cbn [lclosed lsrc close_reader closes].
     split; [reflexivity|]. cbv zeta.
     destruct (Z.gtb_spec (Z.of_nat (length (data_of s))) n) as [_|Hbad]; [|lia].
-    split; [|reflexivity].
+    split; [|split; [reflexivity | lia]].
     destruct n as [|p|p]; try lia. reflexivity.
   - destruct (consume_rule (limit_read Fixed) (lim_inv n s)
                (fun l => script_fuel (script (lsrc l))) (lim_post n s)
@@ -177,12 +208,13 @@ Proof.
     + unfold lim_inv, lim_new. cbn [lN lclosed lsrc script closes app length].
       repeat split; try reflexivity; lia.
     + unfold limit_fuel. lia.
-    + rewrite Hrun. exists out, e. eexists. eexists. split; [reflexivity | exact Hpost].
+    + rewrite Hrun. exists out, e. eexists. eexists. split; [reflexivity|].
+      rewrite (iter_idem limit_close limit_close_idem k _ Hk). exact Hpost.
 Qed.
 
 Lemma limit_over_refuted : exists n s c, consumer_pos c /\
   (Z.of_nat (length (data_of s)) > n)%Z /\
-  exists out cb ca, limit_run Original n s c = (out, Some EEOF, cb, ca).
+  exists out cb ca, limit_run Original n s c 1 = (out, Some EEOF, cb, ca).
 Proof.
   exists 2%Z, [Data [1; 2]%N; DataEOF [3]%N], {| csizes := []; cdflt := 4 |}.
   split; [split; [constructor | cbn [cdflt]; lia]|].
@@ -356,11 +388,11 @@ Section Multi.
   Qed.
 End Multi.
 
-Lemma multi_read_spec : forall v srcs c, consumer_pos c ->
-  exists out e cb ca, multi_run v srcs (Some c) = (out, Some e, cb, ca) /\
+Lemma multi_read_spec : forall v srcs c k, consumer_pos c -> 1 <= k ->
+  exists out e cb ca, multi_run v srcs (ViaRead c) k = (out, Some e, cb, ca) /\
                       multi_spec srcs out e ca.
 Proof.
-  intros v srcs c Hc. unfold multi_run.
+  intros v srcs c k Hc Hk. unfold multi_run.
   destruct (consume_rule multi_read
               (multi_inv (fst (multi_expect srcs)) (snd (multi_expect srcs)) (expected_closes srcs))
               (fun m => fuel_rs (mreaders m))
@@ -375,6 +407,7 @@ Proof.
   - unfold multi_fuel, fuel_rs. lia.
   - rewrite Hrun. destruct Hpost as (H1 & H2 & H3).
     exists out, e. eexists. eexists. split; [reflexivity|].
+    rewrite (iter_idem multi_close multi_close_idem k _ Hk).
     unfold multi_spec. repeat split; assumption.
 Qed.
 
@@ -383,12 +416,12 @@ Qed.
 Lemma copy_buf_pos : 0 < copy_buf.
 Proof. unfold copy_buf. lia. Qed.
 
-Lemma copy_all_spec r : exists r',
-  copy_all r = (data_of (script r),
+Lemma copy_all_spec c r : consumer_pos c -> exists r',
+  copy_all c r = (data_of (script r),
                 Some (if ends_eof (script r) then EEOF else EFail), r') /\
   closes r' = closes r.
 Proof.
-  unfold copy_all.
+  intro Hcpos. unfold copy_all.
   destruct (consume_rule read
               (fun r1 acc => acc ++ data_of (script r1) = data_of (script r) /\
                              ends_eof (script r1) = ends_eof (script r) /\
@@ -397,7 +430,7 @@ Proof.
               (fun out e r1 => out = data_of (script r) /\
                                e = (if ends_eof (script r) then EEOF else EFail) /\
                                closes r1 = closes r))
-    with (fuel := S (script_fuel (script r))) (c := {| csizes := []; cdflt := copy_buf |})
+    with (fuel := S (script_fuel (script r))) (c := c)
          (s := r) (acc := @nil N)
     as (out & e & r' & Hrun & Hout & He & Hc).
   - intros want r1 acc bs e r2 Hw (Hd & Heof & Hcl) Hrd.
@@ -409,26 +442,26 @@ Proof.
       rewrite <- Hd, Hd', He1, app_nil_r. repeat split; congruence.
     + destruct He as (He1 & He2 & He3 & He4). rewrite <- Heof, He3.
       rewrite <- Hd, He2, He1. repeat split; congruence.
-  - split; [constructor | exact copy_buf_pos].
+  - exact Hcpos.
   - repeat split; reflexivity.
   - lia.
   - exists r'. rewrite Hrun, Hout, He. split; [reflexivity | exact Hc].
 Qed.
 
-Lemma multi_write_to_loop_spec rs : forall gone acc, unclosed rs ->
-  exists m', multi_write_to_loop Fixed rs gone acc =
+Lemma multi_write_to_loop_spec c rs : consumer_pos c -> forall gone acc, unclosed rs ->
+  exists m', multi_write_to_loop Fixed c rs gone acc =
                (acc ++ fst (expect_rs rs), snd (expect_rs rs), m') /\
              gone_counts (mgone m') ++ closes_due (mreaders m') =
                gone_counts gone ++ closes_due rs /\
              unclosed (mreaders m').
 Proof.
-  induction rs as [|r rest IH]; intros gone acc Hun.
+  intro Hcpos. induction rs as [|r rest IH]; intros gone acc Hun.
   - cbn [multi_write_to_loop expect_rs fst snd]. rewrite app_nil_r.
     eexists. split; [reflexivity|]. cbn [mreaders mgone]. split; [reflexivity | exact Hun].
   - pose proof (Forall_inv Hun) as Hr0. pose proof (Forall_inv_tail Hun) as Hrest.
     cbn beta in Hr0.
     cbn [multi_write_to_loop expect_rs].
-    destruct (copy_all_spec (sreader r)) as (rd' & Hcopy & Hcl). rewrite Hcopy.
+    destruct (copy_all_spec c (sreader r) Hcpos) as (rd' & Hcopy & Hcl). rewrite Hcopy.
     destruct (ends_eof (script (sreader r))).
     + destruct (IH (gone ++ [close_src {| sreader := rd'; closable := closable r |}])
                    (acc ++ data_of (script (sreader r))) Hrest) as (m' & Hrun & Hcnt & Hun').
@@ -443,23 +476,28 @@ Proof.
       * constructor; [cbn [sreader]; lia | exact Hrest].
 Qed.
 
-Lemma multi_writeto_spec : forall srcs,
-  exists out e cb ca, multi_run Fixed srcs None = (out, Some e, cb, ca) /\
+Lemma multi_writeto_spec : forall srcs c k, consumer_pos c -> 1 <= k ->
+  exists out e cb ca, multi_run Fixed srcs (ViaWriteTo c) k = (out, Some e, cb, ca) /\
                       multi_spec srcs out e ca.
 Proof.
-  intros srcs. unfold multi_run, multi_write_to, multi_new. cbn [mreaders mgone].
-  destruct (multi_write_to_loop_spec (map src_new srcs) [] [] (unclosed_new srcs))
+  intros srcs c k Hc Hk. unfold multi_run, multi_write_to, multi_new. cbn [mreaders mgone].
+  destruct (multi_write_to_loop_spec c (map src_new srcs) Hc [] [] (unclosed_new srcs))
     as (m' & Hrun & Hcnt & Hun).
   rewrite Hrun. cbn [app].
   eexists. eexists. eexists. eexists. split; [reflexivity|].
+  rewrite (iter_idem multi_close multi_close_idem k _ Hk).
   unfold multi_spec. rewrite expect_rs_new.
   repeat split.
   rewrite (close_counts_multi_close _ Hun), Hcnt. cbn [gone_counts map app].
   apply closes_due_new.
 Qed.
 
+Lemma copy_consumer_pos : consumer_pos copy_consumer.
+Proof. split; [constructor | exact copy_buf_pos]. Qed.
+
 Lemma multi_writeto_refuted : exists srcs out e cb ca,
-  multi_run Original srcs None = (out, Some e, cb, ca) /\ ca <> expected_closes srcs.
+  multi_run Original srcs (ViaWriteTo copy_consumer) 1 = (out, Some e, cb, ca) /\
+  ca <> expected_closes srcs.
 Proof.
   exists [([DataEOF [1]%N], true); ([Data [2]%N], true)].
   eexists. eexists. eexists. eexists. split.
@@ -507,7 +545,7 @@ Section Tee.
               end ->
               tee_post out e1 {| tr := r'; tw := w'; topen := true; teof := eof' |}).
     { intros w' out Hw1 Hw2 Hpre e1 eof' Hcase.
-      unfold tee_post, tee_spec, tee_close. cbn [tr tw wbuf wcloses close_reader closes].
+      unfold tee_post, tee_spec, tee_close. cbn [topen tr tw wbuf wcloses close_reader closes].
       repeat split; try assumption; lia. }
     destruct bs0 as [|b bs0].
     - (* empty read: nothing is written *)
@@ -574,10 +612,11 @@ Section Tee.
   Qed.
 End Tee.
 
-Lemma tee_run_spec : forall s b c, consumer_pos c ->
-  exists out e w sc wc, tee_run s b c = (out, Some e, w, sc, wc) /\ tee_spec s b out e w sc wc.
+Lemma tee_run_spec : forall s b c k, consumer_pos c -> 1 <= k ->
+  exists out e w sc wc, tee_run s b c k = (out, Some e, w, sc, wc) /\
+                        tee_spec s b out e w sc wc.
 Proof.
-  intros s b c Hc. unfold tee_run.
+  intros s b c k Hc Hk. unfold tee_run.
   destruct (consume_rule tee_read (tee_inv s b)
               (fun t => script_fuel (script (tr t))) (tee_post s b)
               (tee_read_step s b)
@@ -586,7 +625,8 @@ Proof.
   - unfold tee_inv, tee_new. cbn [tr tw topen teof wbuf wbudget wcloses script closes app].
     repeat split; try reflexivity. intro H; exact H.
   - unfold tee_fuel. lia.
-  - rewrite Hrun. exists out, e. eexists. eexists. eexists.
+  - rewrite Hrun. rewrite (iter_idem tee_close tee_close_idem k _ Hk).
+    exists out, e. eexists. eexists. eexists.
     split; [reflexivity | exact Hpost].
 Qed.
 
@@ -601,43 +641,44 @@ Proof. split; [repeat constructor | cbn [cdflt ex_consumer]; lia]. Qed.
 (* Over-limit source whose 3rd byte arrives with EOF: the current tree reports ErrStreamTooLarge
    after exactly 2 bytes and has closed the source itself ... *)
 Example limit_over_fixed :
-  limit_run Fixed 2 [Data [1; 2]%N; DataEOF [3]%N] {| csizes := []; cdflt := 4 |}
+  limit_run Fixed 2 [Data [1; 2]%N; DataEOF [3]%N] {| csizes := []; cdflt := 4 |} 2
   = ([1; 2]%N, Some ETooLarge, 1, 1).
 Proof. vm_compute. reflexivity. Qed.
 
 (* ... where the code before the fix ended in a clean EOF. *)
 Example limit_over_original :
-  limit_run Original 2 [Data [1; 2]%N; DataEOF [3]%N] {| csizes := []; cdflt := 4 |}
+  limit_run Original 2 [Data [1; 2]%N; DataEOF [3]%N] {| csizes := []; cdflt := 4 |} 1
   = ([1; 2]%N, Some EEOF, 1, 1).
 Proof. vm_compute. reflexivity. Qed.
 
 Example limit_within :
-  limit_run Fixed 5 [Data [1; 2]%N; Zero; DataEOF [3]%N] ex_consumer
+  limit_run Fixed 5 [Data [1; 2]%N; Zero; DataEOF [3]%N] ex_consumer 1
   = ([1; 2; 3]%N, Some EEOF, 0, 1).
 Proof. vm_compute. reflexivity. Qed.
 
 Example multi_read_run :
   multi_run Fixed [([Data [1; 2]%N; DataEOF [3]%N], true); ([], false); ([Data [4]%N], true)]
-            (Some ex_consumer)
+            (ViaRead ex_consumer) 2
   = ([1; 2; 3; 4]%N, Some EEOF, [1; 0; 1], [1; 0; 1]).
 Proof. vm_compute. reflexivity. Qed.
 
 Example multi_writeto_run_fixed :
-  multi_run Fixed [([DataEOF [1]%N], true); ([Data [2]%N; Fail], true); ([Data [3]%N], true)] None
+  multi_run Fixed [([DataEOF [1]%N], true); ([Data [2]%N; Fail], true); ([Data [3]%N], true)]
+            (ViaWriteTo ex_consumer) 3
   = ([1; 2]%N, Some EFail, [1; 0; 0], [1; 1; 1]).
 Proof. vm_compute. reflexivity. Qed.
 
 Example multi_writeto_run_original :
-  multi_run Original [([DataEOF [1]%N], true); ([Data [2]%N], true)] None
+  multi_run Original [([DataEOF [1]%N], true); ([Data [2]%N], true)] (ViaWriteTo copy_consumer) 1
   = ([1; 2]%N, Some EEOF, [0; 0], [0; 0]).
 Proof. vm_compute. reflexivity. Qed.
 
 Example tee_run_ok :
-  tee_run [Data [1; 2]%N; Zero; DataEOF [3]%N] None ex_consumer
+  tee_run [Data [1; 2]%N; Zero; DataEOF [3]%N] None ex_consumer 2
   = ([1; 2; 3]%N, Some EEOF, [1; 2; 3]%N, 1, 1).
 Proof. vm_compute. reflexivity. Qed.
 
 Example tee_run_writer_fails :
-  tee_run [Data [1; 2]%N; Zero; DataEOF [3]%N] (Some 1) ex_consumer
+  tee_run [Data [1; 2]%N; Zero; DataEOF [3]%N] (Some 1) ex_consumer 1
   = ([1]%N, Some EWriter, [1]%N, 1, 1).
 Proof. vm_compute. reflexivity. Qed.
